@@ -15,7 +15,7 @@ GEN  : every behaviour is decoded by the real Decoder: bitmap_links per subset =
 import json
 
 from .. import tlc, fm94, pyb
-from ..common import workdir, rm_workdir, seed
+from ..common import MachineryError,  workdir, rm_workdir, seed
 
 POOL = [12001, 11003, 1001, 2001, 1015, 7001, 10004, 2003]
 
@@ -204,6 +204,23 @@ def run(run):
                     nlinks += 1
                 if bad:
                     run.violation(('bitmap',) + tuple(bad[0]), bad[1], {'kind': 'behaviour', 'behaviour': beh})
+        # an associated field belongs to the element it precedes - also where 204 is nested and after the INNER 204000, when one level
+        # is still in force (FM94.NestedAssoc: pybufrkit's reading of what FM-94 leaves open; flat data and tree must agree on it)
+        res = fm94.gen_run(wd, 'MC_c07_assoc2', catalogue.catalogue(run.tier, seed())['assoc2'], compressions=(False, True), subset_counts=(1, 2), fmax=2,
+                           seeds=((rot + 1) % 5,), slack=0, invariants=INVS, properties=('KthValueKthZero',), nested_assoc=True)
+        if res.violated:
+            run.violation(('spec', res.violated, 'assoc2'), 'FM94 property %s violated' % res.violated, tlc.error_trace(res))
+        run.add_tlc(res, 'FM94 produce, nested associated fields')
+        behs = [b for b in res.iter_emitted() if not b['err']]
+        if not behs:
+            raise MachineryError('no behaviour with nested associated fields')
+        with mp.get_context('fork').Pool(14, initializer=fm94._init_worker) as pool:
+            out = [x for c in pool.map(_work, [behs[i:i + 30] for i in range(0, len(behs), 30)]) for x in c]
+        for beh, bad in zip(behs, out):
+            run.traces += 1
+            run.nontriv(fm94.structure_key(beh) + ('assoc2',))
+            if bad:
+                run.violation(('assoc',) + tuple(bad[0]), bad[1], {'kind': 'behaviour', 'behaviour': beh})
         run.notes['behaviours_with_at_least_one_link'] = nlinks
         # markers on elements whose Table B entry depends on the master table version, decoded alternately under three
         # versions by ONE Decoder in one process: the marker follows the element of the message at hand
